@@ -115,17 +115,19 @@ impl LockFile {
                     .unwrap()
                     .as_secs();
 
-                if current_time.saturating_sub(timestamp) > STALE_LOCK_TIMEOUT_SECS {
-                    // Lock is stale, remove it
-                    fs::remove_file(&lock_path).context("Failed to remove stale lock file")?;
-                } else if is_process_running(pid) {
-                    // Process is still running
+                // A pid that did not parse is 0, and `kill(0, 0)` would probe our own process group
+                if pid != 0 && is_process_running(pid) {
+                    // Process is still running: its lock is valid however old it is (a command
+                    // may legitimately work for more than the stale timeout)
                     return Err(anyhow!(
                         "Another renamify process is already running (PID: {}). \
                         If this is incorrect, remove the lock file at: {}",
                         pid,
                         lock_path.display()
                     ));
+                } else if current_time.saturating_sub(timestamp) > STALE_LOCK_TIMEOUT_SECS {
+                    // Lock is stale, remove it
+                    fs::remove_file(&lock_path).context("Failed to remove stale lock file")?;
                 } else {
                     // Process is not running, remove the lock
                     fs::remove_file(&lock_path).context("Failed to remove orphaned lock file")?;
